@@ -366,3 +366,5 @@ VK(parse_state) {
   vk_save(*r, out, cap, 1);
   return 1 | (uint64_t(r->buffer.size()) << 16);
 }
+
+VK(set_limit) { UNUSED; ada::set_max_input_length(uint32_t(p0)); return ada::get_max_input_length(); }
